@@ -99,3 +99,49 @@ def inspect_to_if(f, u):
                   r'{ let r__ = \1; if r__.is_some() {\2} r__ }')
     u.count('R-inspect', n)
     return n
+
+
+def fmt_to_concat(f, u):
+    """R-fmt: format!("{a}LIT{b}") (identifier holes only) -> verif_concat3(a, "LIT", b)."""
+    n = f.rewrite(r'format!\("\{([a-z_][a-z0-9_]*)\}([^{}"\\]*)\{([a-z_][a-z0-9_]*)\}"\)', r'verif_concat3(\1, "\2", \3)')
+    u.count('R-fmt', n)
+    return n
+
+
+def str_shims(f, u):
+    """R-shim-call for str / Option helpers (postfix extension traits, local rewrites)."""
+    n = 0
+    n += f.rewrite(r"\.starts_with\('", ".verif_starts_with_char('")
+    n += f.rewrite(r'\.starts_with\(', '.verif_starts_with_str(')
+    n += f.rewrite(r"\.ends_with\('", ".verif_ends_with_char('")
+    n += f.rewrite(r"\.strip_suffix\('", ".verif_strip_suffix_char('")
+    n += f.rewrite(r'\.as_deref\(\)', '.verif_as_deref()')
+    n += f.rewrite(r'\.filter\(', '.verif_filter(')
+    n += f.rewrite(r'&([a-z_][a-z0-9_]*)\[\.\.\]', r'verif_arc_str(\1)')
+    u.count('R-shim-call', n)
+    return n
+
+
+def fxhashmap(text, u):
+    """R-hashmap: FxHashMap (rustc_hash) -> std HashMap; only the hasher differs."""
+    text, n = re.subn(r'\bFxHashMap::default\(\)', 'HashMap::new()', text)
+    text, m = re.subn(r'\bFxHashMap<', 'HashMap<', text)
+    u.count('R-hashmap', n + m)
+    return text
+
+
+def mono(f, u, tparam, bound_rx, concrete):
+    """R-mono: verify a generic method for one instantiation: drop `<T: Bound>` from the signature and
+    replace the parameter type.  (Verus loses the spec of iterator `map` closures inside generic
+    functions; the body is unchanged.)"""
+    n = f.rewrite(r'<%s: %s>\(' % (tparam, bound_rx), '(', expect=1)
+    n += f.rewrite(r'\b%s\b(?=[>,)])' % tparam, concrete)
+    u.count('R-mono', 1)
+    return n
+
+
+def import_method(u, rel, impl_rx, name, key, overlay_rel, from_unit, prep=None):
+    f = u.get_fn(rel, name, impl=impl_rx)
+    if prep:
+        prep(f)
+    u.import_fn(f, key, overlay_rel, from_unit, wrap=(impl_header(u, rel, impl_rx, name), '}'))
